@@ -150,6 +150,9 @@ def corr_hook(ctx, rep, mdl):
         fmt = template_text(segs)
         cfgs = {True: ["--hyperlinks", "--hyperlinks-file-link-format", fmt], False: ["--hyperlinks-file-link-format", fmt]}
         env = ask_cfg(hook, cfgs[True], ["ansi.link_env"])[0].split()
+        if len(env) < 6:
+            rep.corr_case("ansi.link_env", False, dict(answer=" ".join(env)))
+            return
         host = None if env[1] == "-" else unhx(env[1]).decode()
         hfield = "-" if host is None else hx(host)
         cwd = None if env[2] == "-" else unhx(env[2]).decode()
